@@ -440,6 +440,10 @@ func runCore(t *testing.T, cfg coreCfg) {
 			if fout == 0 && fin > 0 {
 				st.Count("fragment_histories_entirely_inside", 1)
 			}
+			// the obligation without clock assumption (C05_ordered_ties)
+			tok, tbad := m.OrdTieStats()
+			st.Count("ordered_refinement_no_clock_assumption_steps_ok", tok)
+			st.Count("ordered_refinement_no_clock_assumption_steps_failed", tbad)
 		}
 		if d != nil {
 			kind := mismatchKind(d.Answer)
@@ -778,7 +782,14 @@ func streamOffered(t *testing.T, st *Stats) {
 }
 
 func TestC01(t *testing.T) {
-	runCore(t, coreCfg{prop: "C01", extra: streamOffered, profile: profC01, quickSeeds: 40, thoroughSeeds: 1600, nops: 100, drain: true})
+	runCore(t, coreCfg{prop: "C01", extra: func(t *testing.T, st *Stats) {
+		streamOffered(t, st)
+		if !hasConcrete(st.Violations) {
+			cfg := &SubCfg{Topic: "t", TTL: 24 * 3600 * Sec, MTTL: 3600 * Sec}
+			reportedSuccessIsReal("C01", []Op{{K: "create_topic", Topic: "t"}, {K: "create_sub", Sub: "a", Cfg: cfg}, {K: "create_sub", Sub: "b", Cfg: cfg}},
+				Op{K: "publish", Topic: "t", Msgs: []MsgSpec{{N: 0}, {N: 1}}}, "the messages are not stored / not enqueued on every subscription: an accepted message is lost")(t, st)
+		}
+	}, profile: profC01, quickSeeds: 40, thoroughSeeds: 1600, nops: 100, drain: true})
 }
 func TestC02(t *testing.T) {
 	runCore(t, coreCfg{prop: "C02", extra: waitingPullCurrentPolicy("C02"), profile: profC02, quickSeeds: 40, thoroughSeeds: 1600, nops: 100, drain: true})
@@ -836,7 +847,15 @@ func streamInitialAck(t *testing.T, st *Stats) {
 }
 
 func TestC03(t *testing.T) {
-	runCore(t, coreCfg{prop: "C03", extra: streamInitialAck, profile: profC03, quickSeeds: 40, thoroughSeeds: 1600, nops: 100})
+	runCore(t, coreCfg{prop: "C03", extra: func(t *testing.T, st *Stats) {
+		streamInitialAck(t, st)
+		if !hasConcrete(st.Violations) {
+			cfg := &SubCfg{Topic: "t", TTL: 24 * 3600 * Sec, MTTL: 3600 * Sec}
+			reportedSuccessIsReal("C03", []Op{{K: "create_topic", Topic: "t"}, {K: "create_sub", Sub: "a", Cfg: cfg}, {K: "publish", Topic: "t", Msgs: []MsgSpec{{N: 0}, {N: 1}}},
+				{K: "advance", D: int64(time.Millisecond)}, {K: "pull", Sub: "a", Max: 5}},
+				Op{K: "ack", Refs: []Ref{{N: 0, Sub: "a"}, {N: 1, Sub: "a"}}}, "the deliveries are not completed: the acknowledged messages will be delivered again")(t, st)
+		}
+	}, profile: profC03, quickSeeds: 40, thoroughSeeds: 1600, nops: 100})
 }
 
 // streamLease: the lease on the streaming path — a message sent on a stream is not handed out again
@@ -976,6 +995,9 @@ func fragmentHistories(t *testing.T, st *Stats) {
 func TestC05(t *testing.T) {
 	runCore(t, coreCfg{prop: "C05", extra: func(t *testing.T, st *Stats) {
 		orderedStream(t, st)
+		if !hasConcrete(st.Violations) {
+			orderedPush(t, st)
+		}
 		if !hasConcrete(st.Violations) {
 			fragmentHistories(t, st)
 		}
